@@ -13,6 +13,21 @@ COMMON_NOTE = ('Bounded: holds for all values inside the stated bounds under the
                '(translation-validated against the native build on every run), z3 5.1.')
 
 CLAIMS = {
+    'C01': {
+        'text': 'Conservation as a composition. Decided here on the MIR: check_tx_validity on a symbolic transaction (2 in / 2 out; '
+                'thorough 3 / 3) accepts only if, for a universally quantified denomination other than the transaction\'s own new '
+                'token, outputs (+ fee for MEL) do not exceed the inputs; apply_tip_909 mints at most 2^20 micro-SYM, only into the '
+                'SYM reserves of MEL/SYM and ERG/SYM, and moves the MEL it buys from the pool to the fee pool unchanged; '
+                'process_pegging rewrites nothing but the MEL/SYM pool through two one-sided swap_many calls. Composed by reference '
+                'with C02 (exact coin-set transition, no double spend), C05 (fees, reward), C15/C16 (settlement pays coins no more '
+                'than left the pool), C18 (ERG mint cap), C19 (faucets).',
+        'design_ref': 'DESIGN.md §8 C01, §12',
+        'note': COMMON_NOTE + ' The sum over a whole sealed block is not formed inside one query; the size of the peg adjustment is '
+                'not bounded here (it is one of the issuance rules the property allows). Over-issuance of liquidity tokens by '
+                'multi-deposit blocks is a known finding of C16.',
+        'technique': 'bounded symbolic execution of rustc MIR + z3 (bit-vectors; integer translation for the pool contract facts); '
+                     'structural MIR check for the pegging frame; assume-guarantee composition across checks',
+    },
     'C09': {
         'text': 'Panic-freedom of the encoded apply and seal kernels (MIR built with overflow checks on): apply_tx_batch on a symbolic '
                 'transaction / batch, the DoscMint validation path with melpow\'s proof-map indexing made explicit, '
